@@ -31,8 +31,10 @@ def get_class(tree, dotted):
     return node
 
 
-def apply_edit(tree, e):
-    """Apply a resolved edit through the public AST API.  Returns False if the target is missing."""
+def apply_edit(tree, e, src_tree=None):
+    """Apply a resolved edit through the public AST API.  Returns False if the target is missing.
+    graft_class: a copy of one class of `src_tree` (another owner's tree) is put in the place of the class of the same
+    name in `tree` - the owner of `tree` takes over somebody else's version of a class."""
     import pymoca.ast as A
 
     c = get_class(tree, e["class"])
@@ -66,6 +68,20 @@ def apply_edit(tree, e):
         if n is None:
             return False
         c.remove_class(n)
+    elif k == "graft_class":
+        src = get_class(src_tree, e["class"])
+        if src is None:
+            return False
+        if e["how"] == "find_class":
+            cp = src_tree.find_class(A.ComponentRef.from_string(e["class"]), copy=True)
+        elif e["how"] == "deepcopy":
+            cp = copy.deepcopy(src)
+        else:
+            cp = src.copy_including_children()
+        parent = get_class(tree, e["class"].rsplit(".", 1)[0]) if "." in e["class"] else tree
+        if parent is None:
+            return False
+        parent.add_class(cp)
     return True
 
 
@@ -164,7 +180,7 @@ class Engine:
                 ops.append({"op": "copy", "tree": t})
                 n_trees += 1
             elif r < 0.85:
-                ops.append({"op": rng.choice(EDITS), "tree": t, "cls": rng.randrange(1000), "idx": rng.randrange(1000),
+                ops.append({"op": rng.choice(EDITS + ["graft_class"]), "tree": t, "cls": rng.randrange(1000), "idx": rng.randrange(1000),
                             "other": rng.randrange(8), "hub": rng.random() < 0.6})
             else:
                 ops.append({"op": "check", "tree": t, "cls": rng.randrange(1000),
@@ -226,11 +242,14 @@ class Engine:
             direct_done = set()
             uniq = [0]
 
-            def ref_tree(i):
+            def replay(edits):
                 t = pickle.loads(pk)
-                for e in logs[i]:
-                    apply_edit(t, e)
+                for e in edits:
+                    apply_edit(t, e, replay(e["src_log"]) if e["op"] == "graft_class" else None)
                 return t
+
+            def ref_tree(i):
+                return replay(logs[i])
 
             def check(i, cls, via, what, shape):
                 """Flatten `cls` on tree i and on its replayed-log reference."""
@@ -310,8 +329,18 @@ class Engine:
                     if not node.classes:
                         continue
                     e["name"] = list(node.classes)[op["idx"] % len(node.classes)]
+                src_i = None
+                if k == "graft_class":
+                    donors = [j for j in range(len(trees)) if j != i and j not in direct_done]
+                    if not donors:
+                        continue
+                    src_i = donors[op["other"] % len(donors)]
+                    if get_class(ref_tree(src_i), cls) is None:
+                        continue
+                    e["how"] = ["find_class", "deepcopy", "children"][op["idx"] % 3]
+                    e["src_log"] = list(logs[src_i])
                 try:
-                    ok = apply_edit(trees[i], e)
+                    ok = apply_edit(trees[i], e, trees[src_i] if src_i is not None else None)
                 except Exception as ex:
                     viol = ("exception", util.exc_site(ex), [k, depth[i], "edit"], "edit %s on tree %d raised %r" % (e, i, ex))
                     break
@@ -331,6 +360,8 @@ class Engine:
                 if rel.get(cls, {}).get("extends"):
                     targets.append(("via_extends", rel[cls]["extends"][op["idx"] % len(rel[cls]["extends"])]))
                 others = [j for j in range(len(trees)) if j != i and j not in direct_done]
+                if src_i is not None:
+                    others = [src_i]  # the donor must not notice that a copy of its class was taken
                 sides = [("visible", i)] + ([("invisible", others[op["other"] % len(others)])] if others else [])
                 for relname, tcls in targets:
                     if tcls not in cur and relname != "same":
